@@ -104,6 +104,7 @@ func run(pass *analysis.Pass) (any, error) {
 				Args: []ast.Expr{replacement},
 			}
 		}
+		replacement = code.ParenthesizeFor(pass, node, replacement)
 		report.Report(pass, node, "could expand call to math.Pow",
 			report.Fixes(edit.Fix("Expand call to math.Pow", edit.ReplaceWithNode(pass.Fset, node, replacement))))
 	}
